@@ -324,8 +324,9 @@ type Entry struct {
 }
 
 type Indexed struct {
-	Key uint64
-	E   Entry
+	KeyPeer int
+	Key     uint64
+	E       Entry
 }
 
 type Snap struct {
@@ -344,10 +345,10 @@ func FromVerifSnap(s agent.VerifRelaySnapshot) Snap {
 	var o Snap
 	o.Up, o.Down = []Indexed{}, []Indexed{}
 	for _, x := range s.ByUpstream {
-		o.Up = append(o.Up, Indexed{x.Key, *FromVerifEntry(&x.Entry)})
+		o.Up = append(o.Up, Indexed{PNum(x.KeyPeer), x.Key, *FromVerifEntry(&x.Entry)})
 	}
 	for _, x := range s.ByDownstream {
-		o.Down = append(o.Down, Indexed{x.Key, *FromVerifEntry(&x.Entry)})
+		o.Down = append(o.Down, Indexed{PNum(x.KeyPeer), x.Key, *FromVerifEntry(&x.Entry)})
 	}
 	return o
 }
@@ -372,7 +373,7 @@ func CoqSnap(s Snap) string {
 	f := func(xs []Indexed) string {
 		items := make([]string, len(xs))
 		for i, x := range xs {
-			items[i] = fmt.Sprintf("(%s, %s)", vh.CoqN(x.Key), CoqEntry(x.E))
+			items[i] = fmt.Sprintf("((%s, %s), %s)", vh.CoqN(uint64(x.KeyPeer)), vh.CoqN(x.Key), CoqEntry(x.E))
 		}
 		return vh.CoqList(items)
 	}
